@@ -209,6 +209,16 @@ def main(run: core.Run):
             for n, p in parts:
                 for col in (True, False):
                     items.append((work, p, col, n))
+    # large near-equal costs (differences below float32 resolution)
+    for nl in (3, 5, 8):
+        for off in (0, 1):
+            work = {f'h{i}': {'A': 2.0 ** 24 + i + off, 'G': float(i % 2)}
+                    for i in range(nl)}
+            work['t0'] = {'A': 1.0, 'G': 0.0}
+            work['t1'] = {'A': 0.0, 'G': 1.0 + off}
+            for n, p in parts:
+                for col in (True, False):
+                    items.append((work, p, col, n))
     # world_size larger than the ranks mentioned (loads array is longer)
     for n, p in parts[:20]:
         items.append(({'a': {'A': 2, 'G': 1}, 'b': {'A': 1, 'G': 1}}, p,
@@ -222,7 +232,8 @@ def main(run: core.Run):
     run.rule = (
         f'every set partition of worlds 1..{maxw} into worker groups x every '
         f'work dictionary in the boxes {boxes} (max layers, max factors per '
-        'layer, cost alphabet) + a wide-range catalogue x colocate on/off; '
+        'layer, cost alphabet) + a wide-range catalogue + large near-equal '
+        'costs (2^24 + i) x colocate on/off; '
         'depth-2 call histories for purity; non-trivial = >1 layer and the '
         'result uses >1 worker')
     run.sample(items[len(items) // 2])
